@@ -353,6 +353,16 @@ impl Qcow2Header {
             .into());
         }
 
+        // Neither table can live in the header's cluster. A table at offset
+        // 0 would be written (L1 growth, refcount table updates) over the
+        // header.
+        if reftable_offset == 0 {
+            return Err("qcow2 refcount table offset is 0, the header's cluster".into());
+        }
+        if l1_table_offset == 0 && header.size != 0 {
+            return Err("qcow2 L1 table offset is 0, the header's cluster".into());
+        }
+
         let backing_filename = if header.backing_file_offset != 0 {
             let (offset, length) = (header.backing_file_offset, header.backing_file_size);
             if length > 1023 {
